@@ -207,6 +207,67 @@ static int rt_has_ll_noiface(const char *servers)
   return 0;
 }
 
+/* older-style socket functions (ares_set_socket_functions): nothing can be opened; calls are counted in *user_data */
+static int rt_lg_calls[2];
+static ares_socket_t rt_lg_socket(int af, int type, int protocol, void *ud)
+{
+  (void)af;
+  (void)type;
+  (void)protocol;
+  (*(int *)ud)++;
+  errno = EMFILE;
+  return ARES_SOCKET_BAD;
+}
+static int rt_lg_close(ares_socket_t s, void *ud)
+{
+  (void)s;
+  (*(int *)ud)++;
+  return 0;
+}
+static int rt_lg_connect(ares_socket_t s, const struct sockaddr *a, ares_socklen_t l, void *ud)
+{
+  (void)s;
+  (void)a;
+  (void)l;
+  (*(int *)ud)++;
+  errno = ECONNREFUSED;
+  return -1;
+}
+static ares_ssize_t rt_lg_recvfrom(ares_socket_t s, void *b, size_t l, int f, struct sockaddr *a, ares_socklen_t *al, void *ud)
+{
+  (void)s;
+  (void)b;
+  (void)l;
+  (void)f;
+  (void)a;
+  (void)al;
+  (*(int *)ud)++;
+  errno = EWOULDBLOCK;
+  return -1;
+}
+static ares_ssize_t rt_lg_sendv(ares_socket_t s, const struct iovec *v, int n, void *ud)
+{
+  (void)s;
+  (void)v;
+  (void)n;
+  (*(int *)ud)++;
+  errno = EWOULDBLOCK;
+  return -1;
+}
+static const struct ares_socket_functions rt_lg_funcs = { rt_lg_socket, rt_lg_close, rt_lg_connect, rt_lg_recvfrom, rt_lg_sendv };
+static void rt_pending_write_cb(void *data)
+{
+  (void)data;
+}
+static void rt_lg_query_cb(void *arg, int status, int timeouts, unsigned char *abuf, int alen)
+{
+  (void)status;
+  (void)timeouts;
+  (void)abuf;
+  (void)alen;
+  (*(int *)arg)++;
+}
+
 static const char *rt_keyname(const char *field, const cfg_uopts_t *u, int ll_noiface, char *buf,
                               size_t len)
 {
@@ -495,6 +556,47 @@ static void prof_roundtrip(vh_rng_t *r, const vh_args_t *a)
       ares_destroy(ch2);
       ch2 = NULL;
     }
+  }
+
+  /* ---- dup is a channel of its own: what the application installed on the original (older-style socket functions
+   * with their user data, the pending-write callback) is what the copy uses, whatever happens to the original later */
+  if (vh_chance(r, 1, 5)) {
+    ares_channel_t *o1 = NULL, *d1 = NULL;
+    cfg_sys_t       empty2;
+    cfg_sys_init(&empty2);
+    cfg_sys_apply(&empty2);
+    if (ares_init_options(&o1, NULL, 0) == ARES_SUCCESS) {
+      rt_lg_calls[0] = rt_lg_calls[1] = 0;
+      (void)ares_set_servers_ports_csv(o1, "192.0.2.1");
+      ares_set_socket_functions(o1, &rt_lg_funcs, &rt_lg_calls[0]);
+      ares_set_pending_write_cb(o1, rt_pending_write_cb, &rt_lg_calls[0]);
+      CNT("dup_independence_evaluations");
+      if (ares_dup(&d1, o1) != ARES_SUCCESS || d1 == NULL) {
+        RT_V("cfg16:dup:failed", "ares_dup of a channel with ares_set_socket_functions() failed | %s", uo);
+      } else {
+        int done = 0;
+        if (d1->notify_pending_write_cb != rt_pending_write_cb || d1->notify_pending_write_cb_data != (void *)&rt_lg_calls[0]) {
+          RT_V("cfg16:dup:pending-write-cb", "ares_set_pending_write_cb() of the original is %s on the copy",
+               d1->notify_pending_write_cb == NULL ? "absent" : "different");
+        }
+        /* the original moves on to other socket functions; the copy must keep the ones it was made with */
+        ares_set_socket_functions(o1, &rt_lg_funcs, &rt_lg_calls[1]);
+        ares_query(d1, "dup.example.test", 1, 1, rt_lg_query_cb, &done);
+        if (rt_lg_calls[1] != 0 || rt_lg_calls[0] == 0) {
+          RT_V("cfg16:dup:socket-functions-follow-original",
+               "a query on the copy made %d socket call(s) with the user data the copy was made with and %d with the "
+               "user data installed on the original afterwards",
+               rt_lg_calls[0], rt_lg_calls[1]);
+        }
+        ares_destroy(d1);
+        if (done != 1) {
+          RT_V("cfg16:dup:query-callbacks", "query on the copy: %d callbacks", done);
+        }
+      }
+      ares_destroy(o1);
+    }
+    cfg_sys_apply(&sys);
+    cfg_sys_free(&empty2);
   }
 
 csv:
